@@ -221,7 +221,7 @@ pub fn chain_alias(data: &[u8]) -> CaseResult {
             Ok(1) => u.int_in_range(150u16..=300).unwrap_or(200),
             _ => u.int_in_range(0u16..=900).unwrap_or(5),
         };
-        let term = if u.ratio(1u8, 8u8).unwrap_or(false) { u.int_in_range(1u8..=3).unwrap_or(0) } else { 0 };
+        let term = if u.ratio(1u8, 8u8).unwrap_or(false) { u.int_in_range(1u8..=4).unwrap_or(0) } else { 0 };
         replies.push(c11::ReplySpec { len, err: u.ratio(1u8, 5u8).unwrap_or(false), continues: true, term, ws: if u.ratio(1u8, 3u8).unwrap_or(false) { u.int_in_range(1u8..=4).unwrap_or(1) } else { 0 } });
     }
     let mut case = c11::Case { more, replies, cuts: vec![] };
